@@ -124,6 +124,25 @@ ADDENDA = {
  "C19": " Also (round 6): every return of the name encoder is the terminating append(…, 0) or the literal {0}.",
 }
 
+# round 7 (DESIGN §21)
+ADDENDA7 = {
+ "C01": " Also (round 7): a name field without a zero octet decodes to the whole field (the constant fallback of the NUL cut equals the array length).",
+ "C02": " Also (round 7, K10): container contracts of dhcpv6.Options (Get collects exactly the matching elements in order, GetOne returns the first match, Add appends at the end, Del keeps exactly the others, Update replaces the first match in place else appends; Message/RelayMessage wrappers delegate with their own argument) and of OptionCodes (Contains, Add appends a new code at the end); K11 platform-width rule (no shift or conversion in int/uint whose result depends on int being 64 bits).",
+ "C03": " Also (round 7): no String/Error/GoString method hands its own receiver to fmt under %v %s %q %x %X (unbounded recursion, K2); K3 platform-width rule over all library packages (sizes and shifts computed in int do not depend on its width).",
+ "C04": " Also (round 7): a name field without a zero octet decodes to the whole field (shared C01-K2).",
+ "C07": " Also (round 7, K9): platform-width rule — no left shift or narrowing-capable conversion in int/uint/uintptr in the codec packages whose result differs where int is 32 bits wide.",
+ "C09": " Also (round 7, K9): no decode loop rebuilds a loop-carried error or string from itself through a call (error chains re-formatted per rejected option).",
+ "C10": " Also (round 7): census of close() in the client packages — a transaction channel is closed only by the owner's cancel and on the `<-p.done` case of the delivering select (also through an unexported helper called only from there).",
+ "C12": " Also (round 7): K6 every WriteTo error makes send fail (all returns on the error edge carry a non-nil error); the value the try returns on its deadline is the one the retry driver tests for (the sentinel itself when the test is ==; errors.Is is recognised as a test and then sees through %w).",
+ "C13": " Also (round 7): the retry driver / transmission / deadline-mapping rules of C12 (K1, K2, K4, K6) are evaluated under C13 (an unanswered message is sent again); container contracts of both option containers (K8) and the broadcast-flag contracts (K9).",
+ "C15": " Also (round 7): K9 container contracts of dhcpv4.Options (Get, Has, Del, GetOneOption, DeleteOption) and OptionCodeList (Has, Add); K10 IsBroadcast/IsUnicast test exactly bit 0x8000 of Flags, SetBroadcast/SetUnicast change exactly that bit.",
+ "C16": " Also (round 7, K9): container contracts of dhcpv6.Options and the Message/RelayMessage option wrappers (the relay helpers look options up per level through them).",
+ "C17": " Also (round 7, K10): container contracts of dhcpv4.Options and OptionCodeList.",
+ "C18": " Also (round 7, K11): platform-width rule over nclient4.",
+ "C19": " Also (round 7, K5): (*Labels).FromBytes keeps a private copy of its whole input as the original bytes on every accepting path; the decoders' rejections and conditional field stores equal the reviewed set (E8).",
+ "C20": " Also (round 7): a shortened re-slice x[:k] handed to a function that appends onto that parameter (interprocedural, through φs, re-slices and helper calls) is a write to x's elements.",
+}
+
 NA_REASON = {}
 
 def main():
@@ -134,7 +153,7 @@ def main():
         pid = p["id"]
         if pid in CLAIMED:
             tech, text, note, ref = CLAIMED[pid]
-            text = text + ADDENDA.get(pid, "")
+            text = text + ADDENDA.get(pid, "") + ADDENDA7.get(pid, "")
             checks.append({
                 "property_id": pid,
                 "quick_cmd": f"./check.sh {pid} quick",
